@@ -48,9 +48,12 @@ class Exec {
   void on_dispatch(int ci, DBusConnection *conn, DBusMessage *msg);
   void after_event();
   void resolve_choices();
+  void sync_names();
+  std::set<std::string> ever_names;
   std::vector<int> actual_queue(const std::string &name);
   void check_point(bool final);
   void compare_client(int ci);
+  bool take_floating(int ci, const wire::Msg &o);
 };
 
 }  // namespace checks
